@@ -38,7 +38,7 @@ fn wire(labels: &[&[u8]]) -> Vec<u8> {
 }
 
 /// Zone `example.`: SOA+NS at the apex, A records at a/b/c.example., wildcard
-/// `*.w.example.` A, nothing below `nx.example.`.
+/// `*.w.example.` A, `*.cw.example.` CNAME a.example., nothing below `nx.example.`.
 pub fn catalog() -> Arc<Cat> {
     let apex: Box<Name> = "example.".parse().unwrap();
     let mut z = HashMapTreeZone::new(apex.clone(), Class::IN, GluePolicy::Narrow);
@@ -56,6 +56,9 @@ pub fn catalog() -> Arc<Cat> {
         let rd = [192u8, 0, 2, i as u8 + 1];
         z.add(&n, Type::A, Class::IN, ttl, <&Rdata>::try_from(&rd[..]).unwrap()).unwrap();
     }
+    let wc: Box<Name> = "*.cw.example.".parse().unwrap();
+    let target = wire(&[b"a", b"example"]);
+    z.add(&wc, Type::CNAME, Class::IN, ttl, <&Rdata>::try_from(&target[..]).unwrap()).unwrap();
     Arc::new(SingleZoneCatalog::new(Entry::Loaded(Arc::new(z), ())))
 }
 
@@ -64,6 +67,9 @@ pub fn catalog() -> Arc<Cat> {
 ///   n<label>  `<label>.example.` A      -> NOERROR with an answer (label in a, b, c, any case)
 ///   d<label>  `<label>.example.` TXT    -> NOERROR, no data
 ///   w<label>  `<label>.w.example.` A    -> NOERROR by wildcard synthesis from `*.w.example.`
+///   y<label>  `<label>.w.example.` ANY  -> NOERROR, every RRset of the wildcard (answer_any)
+///   z<label>  `<label>.w.example.` TXT  -> NOERROR, no data, synthesized from `*.w.example.`
+///   c<label>  `<label>.cw.example.` A   -> NOERROR, CNAME synthesized from `*.cw.example.` (-> a.example.)
 ///   x<label>  `<label>.nx.example.` A   -> NXDOMAIN
 ///   r<label>  `<label>.other.` A        -> REFUSED
 ///   f         QDCOUNT=0, opcode QUERY   -> FORMERR, no question
@@ -81,6 +87,9 @@ pub fn query(kind: &str, edns: bool, id: u16) -> Vec<u8> {
         "n" => (Some(wire(&[label, b"example"])), 1, 0, 1),
         "d" => (Some(wire(&[label, b"example"])), 16, 0, 1),
         "w" => (Some(wire(&[label, b"w", b"example"])), 1, 0, 1),
+        "y" => (Some(wire(&[label, b"w", b"example"])), 255, 0, 1),
+        "z" => (Some(wire(&[label, b"w", b"example"])), 16, 0, 1),
+        "c" => (Some(wire(&[label, b"cw", b"example"])), 1, 0, 1),
         "x" => (Some(wire(&[label, b"nx", b"example"])), 1, 0, 1),
         "r" => (Some(wire(&[label, b"other"])), 1, 0, 1),
         "f" => (None, 0, 0, 0),
